@@ -221,6 +221,22 @@ func useV6(d dhcpv6.DHCPv6, bad *[]string, steps *int) {
 		ii := i
 		run(fmt.Sprintf("DecapsulateRelayIndex(%d)", ii), func() { seen(dhcpv6.DecapsulateRelayIndex(d, ii)) })
 	}
+	// comparisons: a server compares the identifiers of a message with its own, with each other and with what another message
+	// carries - or does not carry (an absent identifier reads as a nil DUID)
+	run("DUID.Equal", func() {
+		if m, err := d.GetInnerMessage(); err == nil && m != nil {
+			ids := []dhcpv6.DUID{m.Options.ClientID(), m.Options.ServerID(), nil, &dhcpv6.DUIDLL{HWType: 1, LinkLayerAddr: net.HardwareAddr{2, 0, 0, 0, 0, 1}},
+				&dhcpv6.DUIDOpaque{Type: 9, Data: []byte{1}}}
+			for _, a := range ids[:2] {
+				if a == nil {
+					continue
+				}
+				for _, b := range ids {
+					a.Equal(b)
+				}
+			}
+		}
+	})
 	run("GetInnerMessage", func() { d.GetInnerMessage() })
 	run("GetTransactionID", func() { dhcpv6.GetTransactionID(d) })
 	run("ExtractMAC", func() { dhcpv6.ExtractMAC(d) })
